@@ -2,6 +2,7 @@ import DltypeModel
 import Spec
 import Proofs.ParseTop
 import Proofs.Eval
+import Proofs.Recogniser
 namespace Dltype.C05
 open Dltype Dltype.Spec Dltype.Proofs
 
@@ -88,6 +89,19 @@ theorem example_expression_dim :
     let t : Tree := .bin .add (.var ['a']) (.lit ['1'])
     t.WF = true ∧ ({ identifier := t.str, post := t.post } : DimExpr).isIdentifier = false ∧
     ({ identifier := t.str, post := t.post } : DimExpr).isLiteral = false := by decide
+
+/-- the oracle used by the correspondence runs is sound: a string the independent recursive-descent
+    recogniser accepts is the string of the well-formed tree it returns … -/
+theorem recogniser_is_sound (s : List Char) (t : Tree) (h : recogniseExpr s = some t) :
+    t.str = s ∧ t.WF = true :=
+  recogniseExpr_sound s t h
+
+/-- … hence, for EVERY string, whatever the recogniser accepts the model parser accepts, with the
+    post-order of the recogniser's tree as its program and (by `string_evaluates_to_arithmetic_value`)
+    the recogniser's arithmetic value as its value -/
+theorem parser_accepts_what_recogniser_accepts (s : List Char) (t : Tree) (h : recogniseExpr s = some t) :
+    parseDim s = .ok { identifier := s, post := t.post } :=
+  recognised_is_parsed s t h
 
 /-- non-vacuity: a concrete tree of the grammar, its string, its program and its value -/
 theorem example_tree :
